@@ -1041,6 +1041,30 @@ fn run_sem_on<'a>(ctx: &mut Ctx, ts: &'a [Term<'a>], rng: &mut Rng) {
         w.m.apply(op);
         log.push("connect(0,1)".into());
     }
+    if ctx.case % 2000 == 6 {
+        // quota: one long burst (65535 / 65536 / 65537 writes) on the linked pair (0,1), both ends read before
+        let pool = [special_state(rng), sem_state(rng), State::new_raw(0.0, 0.0, 0.0)];
+        for k in 0..2 {
+            let d = Datum::new(Time(sem_stamp(rng, None)), sem_state(rng));
+            if !do_write_state(ctx, ts, &mut w, &mut log, k, d) {
+                return;
+            }
+        }
+        {
+            let hist = || format!("n={} history {:?}", n, log);
+            if !check_reads(ctx, ts, &w, &hist) {
+                return;
+            }
+        }
+        let big = [65535usize, 65536, 65537][((ctx.case / 2000) % 3) as usize];
+        if !burst_step(ctx, ts, rng, &mut w, &mut log, &mut shape, &pool, Some(big)) {
+            return;
+        }
+        let hist = || format!("n={} history {:?}", n, log);
+        if !check_reads(ctx, ts, &w, &hist) {
+            return;
+        }
+    }
     if !sem_steps(ctx, ts, rng, &mut w, &mut log, &mut shape, steps, false) {
         return;
     }
@@ -1088,9 +1112,20 @@ fn sem_steps<'a>(ctx: &mut Ctx, ts: &'a [Term<'a>], rng: &mut Rng, w: &mut World
     let pool = [special_state(rng), sem_state(rng), State::new_raw(0.0, 0.0, 0.0)];
     for _ in 0..steps {
         let r = if pair_heavy { 45 + rng.below(40) } else { rng.below(100) };
-        if rng.chance(0.25) {
+        let pre = rng.below(100);
+        if pre < 22 {
             // data delivery by FOLLOWING: follow(getter) + Terminal::update() instead of set
             if !follow_step(ctx, ts, rng, w, log, shape, &pool) {
+                return false;
+            }
+        } else if pre < 31 {
+            // write BURST with no read in between (anything that wraps after many operations)
+            if !burst_step(ctx, ts, rng, w, log, shape, &pool, None) {
+                return false;
+            }
+        } else if pre < 40 {
+            // writes while other borrows (RefMut / Ref of the partner, of an unrelated terminal) are alive
+            if !guarded_write_step(ctx, ts, rng, w, log, shape, &pool) {
                 return false;
             }
         } else if r < 25 {
@@ -1175,6 +1210,205 @@ fn sem_steps<'a>(ctx: &mut Ctx, ts: &'a [Term<'a>], rng: &mut Rng, w: &mut World
             return false;
         }
     }
+    true
+}
+const BURSTS: [usize; 8] = [1, 2, 255, 256, 257, 511, 512, 513];
+/// `count` consecutive writes with NO read in between, on one end, alternating between two ends, or on both
+/// ends one after the other; states, commands or both; every write the same datum or all different. Both
+/// ends were read right before (every step ends with the full read oracle) and are read right after (ditto),
+/// so a cache / revision counter / ring that only wraps after 256, 512, 65536 ... operations is exposed.
+/// Model: each slot holds the LAST datum written to it.
+fn burst_step<'a>(ctx: &mut Ctx, ts: &'a [Term<'a>], rng: &mut Rng, w: &mut World, log: &mut Vec<String>, shape: &mut Vec<(u8, usize, usize)>, pool: &[State], forced: Option<usize>) -> bool {
+    let n = ts.len();
+    let count = forced.unwrap_or_else(|| *rng.pick(&BURSTS));
+    let pairs = w.m.key();
+    let (a, b) = if !pairs.is_empty() && (forced.is_some() || rng.chance(0.8)) {
+        let (x, y) = *rng.pick(&pairs);
+        if rng.chance(0.5) { (x, y) } else { (y, x) }
+    } else {
+        let a = rng.usize(n);
+        let mut b = rng.usize(n - 1);
+        if b >= a {
+            b += 1;
+        }
+        (a, b)
+    };
+    let linked = w.m.partner(a) == Some(b);
+    let (pattern, sched): (&'static str, Vec<usize>) = match rng.below(4) {
+        0 => ("one-end", vec![a; count]),
+        1 => ("alternating", (0..count).map(|i| if i % 2 == 0 { a } else { b }).collect()),
+        2 => ("alternating-count-each", (0..2 * count).map(|i| if i % 2 == 0 { a } else { b }).collect()),
+        _ => ("one-end-then-the-other", (0..2 * count).map(|i| if i < count { a } else { b }).collect()),
+    };
+    let kind = *rng.pick(&["state", "command", "state+command"]);
+    let identical = rng.chance(0.5);
+    // final datum of each end, related to what the other end will hold
+    let fa_s = Datum::new(Time(sem_stamp(rng, w.st[b].map(|d| d.time.0))), state_related(rng, w.st[b].map(|d| d.value), pool));
+    let fb_s = Datum::new(Time(sem_stamp(rng, Some(fa_s.time.0))), state_related(rng, Some(fa_s.value), pool));
+    let fa_c = Datum::new(Time(sem_stamp(rng, w.cm[b].map(|d| d.time.0))), command_related(rng, w.cm[b].map(|d| d.value)));
+    let fb_c = Datum::new(Time(sem_stamp(rng, Some(fa_c.time.0))), command_related(rng, Some(fa_c.value)));
+    let last_a = sched.iter().rposition(|&x| x == a);
+    let last_b = sched.iter().rposition(|&x| x == b);
+    let do_s = kind != "command";
+    let do_c = kind != "state";
+    let res = catch(|| {
+        for (i, &x) in sched.iter().enumerate() {
+            let fin = Some(i) == if x == a { last_a } else { last_b };
+            if do_s {
+                let d = if identical || fin {
+                    if x == a { fa_s } else { fb_s }
+                } else {
+                    Datum::new(Time(i as i64), State::new_raw(i as f32, -(i as f32), 0.5))
+                };
+                if Settable::<Datum<State>, E>::set(&mut *ts[x].borrow_mut(), d).is_err() {
+                    return false;
+                }
+            }
+            if do_c {
+                let d = if identical || fin {
+                    if x == a { fa_c } else { fb_c }
+                } else {
+                    Datum::new(Time(-(i as i64)), Command::Velocity(i as f32))
+                };
+                if Settable::<Datum<Command>, E>::set(&mut *ts[x].borrow_mut(), d).is_err() {
+                    return false;
+                }
+            }
+        }
+        true
+    });
+    log.push(format!(
+        "burst of {} writes ({}, {}, {}) on t{}/t{} without reads; last: t{} <- {} / {}, t{} <- {} / {}",
+        sched.len(), pattern, kind, if identical { "every write the same datum" } else { "all different" }, a, b,
+        a, if do_s && last_a.is_some() { log_state(a, &fa_s) } else { "-".into() }, if do_c && last_a.is_some() { log_command(a, &fa_c) } else { "-".into() },
+        b, if do_s && last_b.is_some() { log_state(b, &fb_s) } else { "-".into() }, if do_c && last_b.is_some() { log_command(b, &fb_c) } else { "-".into() }
+    ));
+    match res {
+        Ok(true) => {}
+        Ok(false) => {
+            ctx.bad("C09/write/burst/returned-err".into(), format!("a set in a write burst returned Err; after {:?}", log));
+            return false;
+        }
+        Err(p) => {
+            ctx.bad("C09/panic/write/burst".into(), format!("a set in a write burst panicked: {}; after {:?}", p, log));
+            return false;
+        }
+    }
+    if last_a.is_some() {
+        if do_s { w.st[a] = Some(fa_s); }
+        if do_c { w.cm[a] = Some(fa_c); }
+    }
+    if last_b.is_some() {
+        if do_s { w.st[b] = Some(fb_s); }
+        if do_c { w.cm[b] = Some(fb_c); }
+    }
+    shape.push((7, a, b));
+    ctx.rep.eval();
+    ctx.rep.tally(&format!("burst_n{}", count));
+    ctx.rep.tally(&format!("burst_pattern_{}", pattern));
+    ctx.rep.tally(&format!("burst_kind_{}", kind));
+    ctx.rep.tally(if identical { "burst_values_identical" } else { "burst_values_all-different" });
+    ctx.rep.tally(if linked { "burst_ends_linked" } else { "burst_ends_not-linked" });
+    if linked && do_s {
+        ctx.rep.tally(&format!("burst_n{}_state_on-linked-pair", count));
+        ctx.rep.tally(&format!("burst_{}_state_on-linked-pair", pattern));
+    }
+    ctx.rep.max("burst_max_writes", sched.len() as f64);
+    true
+}
+/// A set() of state and/or command on terminal x through its own RefMut while other borrows are alive:
+/// a RefMut of the partner (optionally writing the partner through that guard too), a Ref of the partner,
+/// a RefMut / Ref of an unrelated terminal. set only ever touches the terminal it is called on, so all of
+/// these work on the unchanged crate. The guards are dropped, then the ordinary read oracle runs.
+fn guarded_write_step<'a>(ctx: &mut Ctx, ts: &'a [Term<'a>], rng: &mut Rng, w: &mut World, log: &mut Vec<String>, shape: &mut Vec<(u8, usize, usize)>, pool: &[State]) -> bool {
+    let n = ts.len();
+    let pairs = w.m.key();
+    let x = if !pairs.is_empty() && rng.chance(0.8) {
+        let (p, q) = *rng.pick(&pairs);
+        if rng.chance(0.5) { p } else { q }
+    } else {
+        rng.usize(n)
+    };
+    let partner = w.m.partner(x);
+    let unrelated: Vec<usize> = (0..n).filter(|&u| u != x && Some(u) != partner).collect();
+    let mut cfgs: Vec<&'static str> = Vec::new();
+    if partner.is_some() {
+        cfgs.extend(["partner-refmut", "partner-refmut", "partner-refmut-both-written", "partner-refmut-both-written", "partner-ref"]);
+    }
+    if !unrelated.is_empty() {
+        cfgs.extend(["unrelated-refmut", "unrelated-ref"]);
+    }
+    if cfgs.is_empty() {
+        return true;
+    }
+    let cfg = *rng.pick(&cfgs);
+    let g = if cfg.starts_with("partner") { partner.unwrap() } else { *rng.pick(&unrelated) };
+    let kind = *rng.pick(&["state", "state", "command", "state+command"]);
+    let do_s = kind != "command";
+    let do_c = kind != "state";
+    let guard_first = rng.chance(0.5);
+    let x_first = rng.chance(0.5);
+    let other_s = partner.and_then(|j| w.st[j]);
+    let other_c = partner.and_then(|j| w.cm[j]);
+    let dx_s = Datum::new(Time(sem_stamp(rng, other_s.map(|d| d.time.0))), state_related(rng, other_s.map(|d| d.value), pool));
+    let dx_c = Datum::new(Time(sem_stamp(rng, other_c.map(|d| d.time.0))), command_related(rng, other_c.map(|d| d.value)));
+    let dg_s = Datum::new(Time(sem_stamp(rng, Some(dx_s.time.0))), state_related(rng, Some(dx_s.value), pool));
+    let dg_c = Datum::new(Time(sem_stamp(rng, Some(dx_c.time.0))), command_related(rng, Some(dx_c.value)));
+    let both = cfg == "partner-refmut-both-written";
+    let res = catch(|| {
+        let mut ok = true;
+        if cfg.ends_with("-ref") {
+            let _gg = ts[g].borrow();
+            let mut gx = ts[x].borrow_mut();
+            if do_s { ok &= Settable::<Datum<State>, E>::set(&mut *gx, dx_s).is_ok(); }
+            if do_c { ok &= Settable::<Datum<Command>, E>::set(&mut *gx, dx_c).is_ok(); }
+        } else {
+            let (mut gg, mut gx);
+            if guard_first {
+                gg = ts[g].borrow_mut();
+                gx = ts[x].borrow_mut();
+            } else {
+                gx = ts[x].borrow_mut();
+                gg = ts[g].borrow_mut();
+            }
+            for who in if x_first { [0, 1] } else { [1, 0] } {
+                if who == 0 {
+                    if do_s { ok &= Settable::<Datum<State>, E>::set(&mut *gx, dx_s).is_ok(); }
+                    if do_c { ok &= Settable::<Datum<Command>, E>::set(&mut *gx, dx_c).is_ok(); }
+                } else if both {
+                    if do_s { ok &= Settable::<Datum<State>, E>::set(&mut *gg, dg_s).is_ok(); }
+                    if do_c { ok &= Settable::<Datum<Command>, E>::set(&mut *gg, dg_c).is_ok(); }
+                }
+            }
+        }
+        ok
+    });
+    log.push(format!(
+        "while holding {} of t{} ({}): t{} <- {} / {}{}",
+        if cfg.ends_with("-ref") { "a Ref" } else { "a RefMut" }, g, cfg, x,
+        if do_s { log_state(x, &dx_s) } else { "-".into() }, if do_c { log_command(x, &dx_c) } else { "-".into() },
+        if both { format!("; through the held RefMut t{} <- {} / {}", g, if do_s { log_state(g, &dg_s) } else { "-".into() }, if do_c { log_command(g, &dg_c) } else { "-".into() }) } else { String::new() }
+    ));
+    match res {
+        Ok(true) => {}
+        Ok(false) => {
+            ctx.bad(format!("C09/write/under-{}/returned-err", cfg), format!("set returned Err; after {:?}", log));
+            return false;
+        }
+        Err(p) => {
+            ctx.bad(format!("C09/panic/write/under-{}", cfg), format!("set on terminal {} panicked while only other terminals were borrowed: {}; after {:?}", x, p, log));
+            return false;
+        }
+    }
+    if do_s { w.st[x] = Some(dx_s); }
+    if do_c { w.cm[x] = Some(dx_c); }
+    if both {
+        if do_s { w.st[g] = Some(dg_s); }
+        if do_c { w.cm[g] = Some(dg_c); }
+    }
+    shape.push((8, x, g));
+    ctx.rep.eval();
+    ctx.rep.tally(&format!("guarded_write_{}_{}", cfg, kind));
     true
 }
 /// Stamp for a followed datum relative to a stored one: strictly older / equal / strictly newer.
@@ -1523,6 +1757,27 @@ fn main() {
             rep.floor(&format!("follow_{}_stopped", slot), 100);
         }
         rep.floor("follow_update_expected_err", 500);
+        // write bursts between reads
+        for c in BURSTS {
+            rep.floor(&format!("burst_n{}", c), 500);
+            rep.floor(&format!("burst_n{}_state_on-linked-pair", c), 200);
+        }
+        for c in [65535, 65536, 65537] {
+            rep.floor(&format!("burst_n{}", c), 1);
+        }
+        for pat in ["one-end", "alternating", "alternating-count-each", "one-end-then-the-other"] {
+            rep.floor(&format!("burst_pattern_{}", pat), 500);
+            rep.floor(&format!("burst_{}_state_on-linked-pair", pat), 500);
+        }
+        for t in ["burst_kind_state", "burst_kind_command", "burst_kind_state+command", "burst_values_identical", "burst_values_all-different", "burst_ends_linked", "burst_ends_not-linked"] {
+            rep.floor(t, 500);
+        }
+        // writes under outstanding borrows
+        for cfg in ["partner-refmut", "partner-refmut-both-written", "partner-ref", "unrelated-refmut", "unrelated-ref"] {
+            for kind in ["state", "command", "state+command"] {
+                rep.floor(&format!("guarded_write_{}_{}", cfg, kind), 200);
+            }
+        }
         rep.floor("sem_state_mean_representable", 1000);
         rep.floor("sem_cases_completed", fl(20_000, 3_000_000));
     }
